@@ -39,7 +39,9 @@ PopRx(proto, c, t, b) ==
      ELSE LET fb == SubSeq(b, 1, n)
               u  == Unframe(proto, fb)
           IN IF ~u.ok
-             THEN [out |-> <<[e |-> "rxdefect", t |-> t, c |-> c, why |-> u.why]>>, b |-> <<>>, dead |-> TRUE]
+             THEN \* damaged frame of known extent (the header was plausible): what follows is still framed
+                  LET r == PopRx(proto, c, t, SubSeq(b, n + 1, Len(b)))
+                  IN [out |-> <<[e |-> "rxdefect", t |-> t, c |-> c, why |-> u.why]>> \o r.out, b |-> r.b, dead |-> r.dead]
              ELSE LET m  == ReadMsg(proto, u.type, u.payload)
                       h  == ReadHdr(proto, u)
                       sf == SoftMsg(proto, u.type, u.payload)
